@@ -59,6 +59,7 @@ type stepT struct {
 	Ka     string            `json:"ka"`
 	Closed bool              `json:"closed"`
 	Race   bool              `json:"race"`
+	Kf     bool              `json:"kf"`
 }
 
 type caseT struct {
@@ -74,6 +75,7 @@ type caseT struct {
 		Ge      []int             `json:"ge"`
 		Ka      string            `json:"ka"`
 		Race    bool              `json:"race"`
+		Kf      bool              `json:"kf"`
 	} `json:"final"`
 }
 
@@ -126,6 +128,16 @@ func isClientEvent(k string) bool { return !serverKinds[k] }
 // copy) -- the documented guarantees cover a channel that is closed, not a connection that disappears.
 var burstKinds = map[string]bool{"sdata": true, "seof": true, "sexit": true, "sexitbad": true, "ssig": true, "ssigbad": true,
 	"sclose": true, "sdrop": true}
+
+func noFail(q []string) []string {
+	r := []string{}
+	for _, x := range q {
+		if x != "fail" {
+			r = append(r, x)
+		}
+	}
+	return r
+}
 
 func short(b []byte) string {
 	if len(b) <= 24 {
@@ -197,6 +209,14 @@ func (w *world) compareStep(st *stepT, calls []callInfo, wantD map[int]resT, mod
 	if mode == cmpBurst {
 		// order and presence of control packets inside a burst depend on timing
 	} else if !finalStep {
+		want := st.Out
+		if st.Kf {
+			// Session.wait has returned early (malformed exit-*): whether later keepalives are still answered is not
+			// compared (code as it is: no; repaired code: yes) -- see SSHSession.Unserviced
+			out, want = noFail(out), noFail(want)
+		}
+		st = &stepT{Ev: st.Ev, Out: want, Done: st.Done, Go: st.Go, Ge: st.Ge, Om: st.Om, Em: st.Em, Ow: st.Ow, Ew: st.Ew, Si: st.Si,
+			Ka: st.Ka, Closed: st.Closed, Race: st.Race, Kf: st.Kf}
 		if len(out) != len(st.Out) || (len(out) > 0 && !reflect.DeepEqual(out, st.Out)) {
 			return &mismatch{What: "control packets written by the client", Got: out, Want: st.Out}
 		}
@@ -305,7 +325,7 @@ func (w *world) compareStep(st *stepT, calls []callInfo, wantD map[int]resT, mod
 			return mm
 		}
 	}
-	if mode != cmpBurst && ka != st.Ka {
+	if mode != cmpBurst && !st.Kf && ka != st.Ka {
 		return &mismatch{What: "result of the server's want-reply keepalive request", Got: ka, Want: st.Ka}
 	}
 	return nil
@@ -390,7 +410,7 @@ func replayIn(t *testing.T, c *caseT, salt int64, burst bool) (mm *mismatch, inf
 			infra = err
 			return
 		}
-		fs := stepT{Go: c.Final.Go, Ge: c.Final.Ge, Ka: c.Final.Ka, Race: c.Final.Race}
+		fs := stepT{Go: c.Final.Go, Ge: c.Final.Ge, Ka: c.Final.Ka, Race: c.Final.Race, Kf: c.Final.Kf}
 		if last != nil {
 			fs.Om, fs.Em, fs.Ow, fs.Ew = last.Om, last.Em, last.Ow, last.Ew
 		}
